@@ -21,12 +21,12 @@ class C19(Config):
     classes = {}
     shard_size = 150
     rule = ("equihash::is_valid_solution on: solutions found by an independent Wagner solver in the harness for "
-            "(48,5) (72,5) (96,5) (64,3) (40,4) (32,3) (80,4) [thorough: also (56,6) (96,7) (88,7) (104,7) (72,3) (72,8)] over random inputs/nonces, the (200,9) and (144,5) "
+            "(48,5) (72,5) (96,5) (64,3) (40,4) (32,3) (80,4) (120,7: 16-bit indices, byte-aligned unpacking) [thorough: also (56,6) (96,7) (88,7) (104,7) (72,3) (72,8)] over random inputs/nonces, the (200,9) and (144,5) "
             "vectors of the Zcash test suite; every single-bit mutation of the solution (k<=4 sets and (48,5); sampled for larger tables) and of input / nonce (k=3 sets; sampled otherwise); index-list mutations "
             "(swapped siblings at every level and block, copied subtrees, swapped non-sibling subtrees, duplicated and "
             "neighbouring indices, a valid half taken twice, near solutions); pseudo-solutions with repeated indices from the solver run without its "
             "distinctness filter on (32,3) (40,4) (48,5) (every collision, ordering and zero-XOR condition holds; only distinct_indices rejects them), "
-            "separately those whose left half ends below the right half's first index, plus hand-shaped variants; random strings of every length 0..2*len; the (n,k) "
+            "separately those whose left half ends below the right half's first index, plus hand-shaped variants; for the byte-aligned index widths 16 and 24 ((120,7), (184,7)) a first pair of leaves colliding on one segment (birthday search) in both orders; random strings of every length 0..2*len; the (n,k) "
             "grid 0..256 x 0..16, n in 264..600 step 8 x k 0..75 and u32 extremes with solutions of length 0, 1, expected, expected+1. "
             "distinct = distinct case lines; non-trivial = every line is an executed call with its observed outcome and "
             "the BLAKE2b digests computed independently of the crate")
